@@ -41,6 +41,33 @@ def shared_classes(eng) -> Set[ClassInfo]:
         c = eng.prog.cls(r)
         out.add(c)
         out.update(c.all_subclasses())
+    # closure: an object that a shared object keeps in a field (self.x = K(...)), or that lives at module / class level (X = K(...)), is shared too
+    changed = True
+    while changed:
+        changed = False
+        for fn in eng.prog.all_functions():
+            owner_shared = fn.cls is not None and fn.cls in out
+            top = fn.name == "<module>"
+            if not (owner_shared or top):
+                continue
+            for s_ in eng.cg.calls_in(fn):
+                if s_.kind != "ctor" or not isinstance(s_.node, ast.Call):
+                    continue
+                par = eng.prog.parent(s_.node)
+                kept = False
+                if isinstance(par, (ast.Assign, ast.AnnAssign)):
+                    tg = par.targets if isinstance(par, ast.Assign) else [par.target]
+                    if top and any(isinstance(t_, ast.Name) for t_ in tg):
+                        kept = True
+                    if owner_shared and any(isinstance(t_, ast.Attribute) and isinstance(t_.value, ast.Name) and t_.value.id in (fn.self_name, "cls") for t_ in tg):
+                        kept = True
+                if not kept:
+                    continue
+                for k in s_.callees:
+                    if k.cls is not None and k.cls not in out and not any(b.name in ("Exception", "JoseError") for b in k.cls.mro):
+                        out.add(k.cls)
+                        out.update(k.cls.all_subclasses())
+                        changed = True
     return out
 
 
